@@ -198,10 +198,16 @@ def _shift(db, chk, rule="C01.R4-uniform-shift"):
     T0, T1 = ("param", "TR", R0), ("param", "TR", R1)
     I = Interp(db, decide=assume(("hascol", T0, "end"), ("hascol", T1, "end")))
     runs = [r for r in I.explore(f"{TM}:Trace._align_all_ranks", lambda I: {"self": Obj("self", cls=(tm, "Trace"), attrs={"traces": {R0: Frame(T0), R1: Frame(T1)}})}) if r.raised is None]
-    if len(runs) != 1:
-        chk.ob(rule, "_align_all_ranks: one path", None, where, found=len(runs))
+    if not runs or len(runs) > 4:
+        chk.ob(rule, "_align_all_ranks: at most four paths", None, where, found=len(runs))
         return
-    s = runs[0].env["self"]
+    for r_ in runs:          # every path must be the one uniform shift
+        _shift_one(chk, rule, where, r_, R0, R1, T0, T1)
+    _shift_inverse(db, chk, rule, tm)
+
+
+def _shift_one(chk, rule, where, run_, R0, R1, T0, T1):
+    s = run_.env["self"]
     mt = to_term(s.attrs.get("min_ts"))
     m0, m1 = T.agg("min", T.col(T0, "ts"), (T0, T.TRUE, None)), T.agg("min", T.col(T1, "ts"), (T1, T.TRUE, None))
     acc = [("reduce", "min", ("list", (m0, m1))), ("reduce", "min", ("list", (m1, m0))), T.min2(m0, m1)]
@@ -213,6 +219,9 @@ def _shift(db, chk, rule="C01.R4-uniform-shift"):
                    [T.sub(T.col(base, "ts"), mt)])
         if isinstance(f, Frame):
             chk.ob(rule, f"{T.show(rk)}: duration untouched by the shift", f.col("dur") == T.col(base, "dur"), where, found=T.show(f.col("dur"))[:80], accepted="dur")
+
+
+def _shift_inverse(db, chk, rule, tm):
     # inverse
     conv = tm.func("Trace.convert_time_series_to_events")
     adds = [n for n in ast.walk(conv) if isinstance(n, ast.BinOp) and isinstance(n.op, ast.Add) and H.is_self_attr(n.right, "min_ts") or
